@@ -79,19 +79,18 @@ func (e *Engine) intrinsicFor(fn *ssa.Function) intrinsic {
 }
 
 func (e *Engine) ensureBuilt(fn *ssa.Function) {
-	if len(fn.Blocks) > 0 {
-		return
-	}
 	pkg := fn.Pkg
-	if pkg == nil {
-		if o := fn.Origin(); o != nil {
+	for f := fn; pkg == nil && f != nil; {
+		if o := f.Origin(); o != nil && o.Pkg != nil {
 			pkg = o.Pkg
+			break
+		}
+		f = f.Parent()
+		if f != nil {
+			pkg = f.Pkg
 		}
 	}
 	if pkg == nil {
-		if fn.Parent() != nil {
-			e.ensureBuilt(fn.Parent())
-		}
 		return
 	}
 	if _, ok := e.built.Load(pkg); ok {
@@ -549,7 +548,7 @@ func (p *Path) makeWitness() {
 	if res != Sat {
 		return
 	}
-	w := WitnessRec{Harness: p.harness, Vector: p.modelVector(m), Observations: map[string]string{}, UsesUF: len(p.ctx.ufOrd) > 0, Decisions: len(p.decisions)}
+	w := WitnessRec{Harness: p.harness, Vector: p.modelVector(m), Observations: map[string]string{}, UsesUF: len(p.ctx.ufOrd) > 0 || p.envNondet, Decisions: len(p.decisions)}
 	for i, o := range p.observes {
 		k := o.label
 		for j := 1; ; j++ {
